@@ -522,8 +522,8 @@ impl Engine<'_> {
                 let d = cvt_distance.to_bits();
                 let p2 = gs.zp0().original(gs.rp0)?;
                 let p1 = gs.zp1_mut().original_mut(p)?;
-                p1.x = p2.x + F26Dot6::from_bits(math::mul(d, fv.x));
-                p1.y = p2.y + F26Dot6::from_bits(math::mul(d, fv.y));
+                p1.x = p2.x + F26Dot6::from_bits(math::mul14(d, fv.x));
+                p1.y = p2.y + F26Dot6::from_bits(math::mul14(d, fv.y));
                 *p1
             };
             *gs.zp1_mut().point_mut(p)? = point;
